@@ -179,14 +179,13 @@ func main() {
 						if found {
 							return false
 						}
-						switch ie := n.(type) {
-						case *ast.IndexExpr:
-							if _, ok := ie.X.(*ast.SelectorExpr); ok {
+						// the first call of an explicitly instantiated function: pkg.F[T](..), F[T](..)
+						if ce, ok := n.(*ast.CallExpr); ok {
+							switch ie := ce.Fun.(type) {
+							case *ast.IndexExpr:
 								targs = append(targs, text(ie.Index))
 								found = true
-							}
-						case *ast.IndexListExpr:
-							if _, ok := ie.X.(*ast.SelectorExpr); ok {
+							case *ast.IndexListExpr:
 								for _, ix := range ie.Indices {
 									targs = append(targs, text(ix))
 								}
